@@ -17,9 +17,11 @@ ASSUME_COMPILE = [
 
 def decl_unit(case, docs=False, extra_lines=(), uid=None, meta=None):
     """module with helpers + declaration (+ extra parts: list of (name, lines))"""
-    L = ["pub mod c_%s {" % case["id"], "    #![allow(dead_code, non_camel_case_types, deprecated, unused_imports, unused_variables)]",
+    L = (["/// generated case %s" % case["id"]] if docs else []) + ["pub mod c_%s {" % case["id"], "    #![allow(dead_code, non_camel_case_types, deprecated, unused_imports, unused_variables)]",
          "    use arbitrary_int::*;", "    use bitbybit::{bitenum, bitfield};", "    use crate::vrt;"]
     parts = []
+    if case.get("prelude_lines"):
+        L += ["    " + l for l in case["prelude_lines"]]
     s0 = len(L)
     for h in case.get("helpers", []):
         L += ["    " + l for l in emit.helper_decl(h, docs=docs)]
@@ -48,6 +50,20 @@ def decl_unit(case, docs=False, extra_lines=(), uid=None, meta=None):
 
 def unit_text(u):
     return "\n".join(u.lines)
+
+
+def single_probe_program(u, probe):
+    """the unit reduced to its declaration (+helpers) and one probe function"""
+    first = min([a for n, a, b in u.parts if n not in ("helpers", "decl")] or [len(u.lines)])
+    keep = list(u.lines[:first - 1])
+    for n, a, b in u.parts:
+        if n == probe:
+            keep += u.lines[a - 1:b]
+    # enum ordinal helpers live in a late "helpers" part
+    for n, a, b in u.parts:
+        if n == "helpers" and a >= first:
+            keep += u.lines[a - 1:b]
+    return "\n".join(keep + ["}"])
 
 
 def all_bitfield_cases(tier, seed):
@@ -255,8 +271,8 @@ def check_c14(tier, seed):
             if pn in failed:
                 code, msg = failed[pn]
                 what = "builder() is missing" if pn == "presence" else "the complete builder chain in declaration order does not compile"
-                rec = dict(kind="builder-missing", what=what + " although the rules expect a builder (%s)" % rules.builder_reason(c), case=c["id"], program=unit_text(u),
-                           probe=pn, observed="%s: %s" % (code, msg[:200]), expected="compiles", replay_kind="compile-probe", expect="compile")
+                rec = dict(kind="builder-missing", what=what + " although the rules expect a builder (%s)" % rules.builder_reason(c), case=c["id"], program=single_probe_program(u, pn),
+                           probe=pn, observed="%s: %s" % (code, msg[:200]), expected="compiles", replay_kind="compile", expect="accept")
                 res.violations.append((dict(category="builder-missing", shape=field_kind_class(c)), rec))
             else:
                 cov["must_compile_ok"] += 1
@@ -281,13 +297,13 @@ def check_c14(tier, seed):
             if pn == "absent":
                 oc = overlap_class(c)
                 cov["reasons_without_builder"][oc] = cov["reasons_without_builder"].get(oc, 0)
-                rec = dict(kind="builder-offered-unsound", what="builder() is offered although " + str(oc), case=c["id"], program=unit_text(u), probe=pn,
+                rec = dict(kind="builder-offered-unsound", what="builder() is offered although " + str(oc), case=c["id"], program=single_probe_program(u, pn), probe=pn,
                            observed="`let _ = %s::builder;` compiles" % c["name"] if pn not in failed else "unexpected error class %s" % (failed[pn],), expected="error[E0599]: no function named builder",
-                           replay_kind="compile-probe", expect="fail")
+                           replay_kind="compile", expect="reject")
                 res.violations.append((dict(category="builder-offered-unsound", shape=oc), rec))
             else:
-                rec = dict(kind="build-reachable-early", what="an incomplete or reordered builder chain type-checks: " + desc, case=c["id"], program=unit_text(u), probe=pn,
-                           observed="compiles" if pn not in failed else "unexpected error class %s" % (failed[pn],), expected="error[E0599]", replay_kind="compile-probe", expect="fail")
+                rec = dict(kind="build-reachable-early", what="an incomplete or reordered builder chain type-checks: " + desc, case=c["id"], program=single_probe_program(u, pn), probe=pn,
+                           observed="compiles" if pn not in failed else "unexpected error class %s" % (failed[pn],), expected="error[E0599]", replay_kind="compile", expect="reject")
                 res.violations.append((dict(category="build-reachable-early", shape=desc.split(" ")[0]), rec))
         if all_failed and probe_names:
             if "absent" in probe_names:
@@ -418,7 +434,7 @@ def check_c17(tier, seed):
                     cov["present_probes"] += 1
                     if pn in failed:
                         rec = dict(kind="api-missing", what="field with access '%s' lacks its %s" % (f["access"], what), case=c["id"], field_decl=emit.field_attr(f) + " " + f["name"] + ": " + emit.field_type(f),
-                                   program=unit_text(u), probe=pn, observed="%s: %s" % failed[pn], expected="compiles", replay_kind="compile-probe", expect="compile")
+                                   program=single_probe_program(u, pn), probe=pn, observed="%s: %s" % failed[pn], expected="compiles", replay_kind="compile", expect="accept")
                         res.violations.append((dict(category="api-missing", shape=combo), rec))
                     else:
                         cov["present_ok"] += 1
@@ -430,7 +446,7 @@ def check_c17(tier, seed):
                         combos_ok[combo + "/absent"] = combos_ok.get(combo + "/absent", 0) + 1
                     else:
                         rec = dict(kind="api-leak", what="field with access '%s' offers a %s" % (f["access"] or "none", what), case=c["id"], field_decl=emit.field_attr(f) + " " + f["name"] + ": " + emit.field_type(f),
-                                   program=unit_text(u), probe=pn, observed="compiles" if pn not in failed else "unexpected error %s" % (failed[pn],), expected="error[E0599]: no method", replay_kind="compile-probe", expect="fail")
+                                   program=single_probe_program(u, pn), probe=pn, observed="compiles" if pn not in failed else "unexpected error %s" % (failed[pn],), expected="error[E0599]: no method", replay_kind="compile", expect="reject")
                         res.violations.append((dict(category="api-leak", shape=combo), rec))
     cov["combos"] = combos_ok
     cov["distinct_nontrivial"] = len(combos_ok)
@@ -466,3 +482,272 @@ def c17_extra_cases():
         for base in (64, 100):
             out.append(bitfield_case("ax_%s_%d" % (acc or "none", base), "c17", base, [dict(f) for f in fields], helpers=[ex, en, inner], default=default_spec(0), name="Reg"))
     return out
+
+
+# ------------------------------------------------------------------------------------------------
+# C10: bitenum validation
+# ------------------------------------------------------------------------------------------------
+
+def enum_unit(uid, enum, meta=None):
+    return decl_unit(dict(id=uid, kind="enum", enum=enum, helpers=[]), uid=uid, meta=meta)
+
+
+def check_c10(tier, seed):
+    t0 = time.time()
+    res = props.Result("C10")
+    tw = rejects.enum_twins(tier, seed)
+    accept_units, reject_units = [], []
+    for c in catalog.family("enumf", tier, seed):
+        v, why = rules.enum_verdict(c["enum"])
+        if v == rules.ACCEPT:
+            accept_units.append(enum_unit(c["id"], c["enum"]))
+        elif v == rules.REJECT:
+            raise Inconclusive("generator produced a rule-invalid enum in the accept family: %s %s" % (c["id"], why))
+    for k, t in enumerate(tw):
+        accept_units.append(enum_unit("ep_%04d" % k, t["pos"], meta=dict(twin=t)))
+        reject_units.append(enum_unit("en_%04d" % k, t["neg"], meta=dict(twin=t)))
+    macro_profiles = ["macrodev"] if tier == "quick" else ["macrodev", "macrorel"]
+    cov = dict(evaluations=0, distinct_nontrivial=0, rule="", samples=[], programs_must_accept=len(accept_units), programs_must_reject=len(reject_units), accepted_ok=0, rejected_ok=0,
+               rules_exercised={}, error_codes={}, rustc={}, macro_profiles=macro_profiles, exhaustive=False)
+    combos = set()
+    with build.Lock():
+        build.snapshot()
+        for mp in macro_profiles:
+            art = cm.artifacts(mp)
+            ea, sa = cm.outcomes(accept_units, art, "c10-acc-" + mp)
+            er, sr = cm.outcomes(reject_units, art, "c10-rej-" + mp)
+            cov["rustc"][mp] = dict(accept=sa, reject=sr)
+            cov["evaluations"] += len(accept_units) + len(reject_units)
+            for u in accept_units:
+                e = u.meta["case"]["enum"]
+                errs = ea.get(u.uid, [])
+                if errs:
+                    shape = "u%d exhaustive=%s %d variants" % (e["bits"], e["exhaustive"], len(e["variants"]))
+                    rec = dict(kind="rule-valid-enum-rejected", what="a bitenum that follows every rule does not compile", case=u.uid, program=unit_text(u), observed="rejected: %s %s" % (errs[0][1], errs[0][2][:200]),
+                               expected="accepted", macro_profile=mp, replay_kind="compile", expect="accept")
+                    res.violations.append((dict(category="rule-valid-enum-rejected", shape=shape), rec))
+                else:
+                    cov["accepted_ok"] += 1
+            for u in reject_units:
+                t = u.meta["twin"]
+                errs = er.get(u.uid, [])
+                for e_ in errs[:1]:
+                    cov["error_codes"][str(e_[1])] = cov["error_codes"].get(str(e_[1]), 0) + 1
+                if not errs:
+                    rec = dict(kind="rule-invalid-enum-accepted", what="a bitenum that breaks rule '%s' compiles (%s)" % (t["rule"], t["shape"]), case=u.uid, rule=t["rule"], shape=t["shape"], program=unit_text(u),
+                               observed="accepted", expected="compile error located at the declaration", macro_profile=mp, replay_kind="compile", expect="reject")
+                    res.violations.append((dict(category="rule-invalid-enum-accepted", shape="%s / u%d" % (t["shape"], t["neg"]["bits"])), rec))
+                else:
+                    cov["rejected_ok"] += 1
+                    cov["rules_exercised"][t["rule"]] = cov["rules_exercised"].get(t["rule"], 0) + 1
+                    if not ea.get("ep_" + u.uid[3:]):
+                        combos.add((t["rule"], t["shape"], t["neg"]["bits"]))
+    # run-time part: every accepted enum of the family is swept (all 2^N values for N <= 16): exhaustive ones never fail, raw_value() never panics
+    reports, dropped = props.run_groups("C10", tier, seed, ["enumf"])
+    rt = props.summarize("C10", reports, "", dropped)
+    cov["evaluations"] += rt["evaluations"]
+    cov["runtime"] = dict(conversions=rt["evaluations"], enums=rt["cases"], enums_nontrivial=rt["distinct_nontrivial"], shape_classes=rt["shape_classes"], exhaustive_subspaces=rt["exhaustive_subspaces"],
+                          profiles={k: dict(ops=v["ops"], unexpected_panics=v["unexpected_panics"], digests=v["digests"]) for k, v in rt["profiles"].items()})
+    for r in reports:
+        for v in r["stats"]["violations"]:
+            res.violations.append((None, dict(v, tier=tier, seed=seed, group=r["group"], replay_kind="runtime")))
+    cov["distinct_nontrivial"] = len(combos)
+    cov["rule"] = ("programs = generated bitenum declarations compiled by rustc with the real macro, then every accepted enum of the family converted at run time under each profile; distinct_nontrivial = distinct "
+                   "(rule, shape, N) combinations for which the rule-valid twin was accepted and its one-edit rule-invalid twin rejected with an error located inside the declaration")
+    for t in tw[:: max(1, len(tw) // 5)][:5]:
+        cov["samples"].append(dict(rule=t["rule"], shape=t["shape"], rejected_twin="\n".join(emit.enum_decl(t["neg"])), accepted_twin="\n".join(emit.enum_decl(t["pos"]))[:600]))
+    cov["samples"] += rt["samples"][:2]
+    cov["repo_fingerprint"] = build.repo_fingerprint()
+    props.write_evidence("C10", tier, seed, cov, time.time() - t0, len(res.violations), ASSUME_COMPILE + props.ASSUME_RUNTIME[:1])
+    if not res.violations and (cov["rejected_ok"] == 0 or cov["accepted_ok"] == 0 or rt["evaluations"] == 0):
+        raise Inconclusive("nothing observed")
+    return res
+
+
+# ------------------------------------------------------------------------------------------------
+# C18: no_std, no unsafe, documentation-clean
+# ------------------------------------------------------------------------------------------------
+
+import json as _json
+import re as _re
+import shutil as _shutil
+import subprocess as _subprocess
+
+EXPMON_DIR = os.path.join(build.VERIF, "harness", "expmon")
+NO_STD_HEADER = ["#![no_std]", "#![deny(missing_docs)]", "#![deny(unsafe_code)]", "//! generated no_std crate: every item documented, nothing but bitbybit and arbitrary_int available", ""] + cm.VRT_STUB
+ALLOWED_HEADS = {"core", "arbitrary_int", "Self", "self"}
+
+
+def build_expmon():
+    env = dict(build.ENV, CARGO_TARGET_DIR=os.path.join(build.TARGET, "expmon"))
+    p = _subprocess.run(["cargo", "build", "--release", "--offline"], cwd=EXPMON_DIR, env=env, stdout=_subprocess.PIPE, stderr=_subprocess.PIPE, timeout=1800)
+    if p.returncode != 0:
+        raise Inconclusive("building expmon failed: " + p.stderr.decode(errors="replace")[-1000:])
+    return os.path.join(build.TARGET, "expmon", "release", "expmon")
+
+
+def idents_of(case):
+    """identifiers the user wrote as types or constants in a declaration: the only path heads generated code may use besides core / arbitrary_int / Self"""
+    out = set()
+    if case["kind"] == "enum":
+        e = case["enum"]
+        out |= {e["name"], "u%d" % e["bits"]}
+        return out
+    out |= {case["name"], "Partial" + case["name"], "u%d" % case["base"], "DEFAULT_" + case["name"].upper()}
+    for f in case["fields"]:
+        out |= set(_re.findall(r"[A-Za-z_][A-Za-z0-9_]*", f["ty"]))
+    for h in case.get("helpers", []):
+        out |= idents_of(dict(h, kind="enum", enum=h) if h["kind"] == "enum" else h)
+    return out
+
+
+def check_c18(tier, seed):
+    t0 = time.time()
+    res = props.Result("C18")
+    fams = ["mixed", "custom", "array", "nc", "enumf", "base", "bld", "dbgf"] + (["single"] if tier == "thorough" else [])
+    units = []
+    user_idents = set()
+    for fam in fams:
+        for c in catalog.family(fam, tier, seed):
+            if c["kind"] == "bitfield" and rules.bitfield_verdict(c)[0] != rules.ACCEPT:
+                continue
+            if fam == "mixed" and "self-overlap" in c.get("tags", []):
+                continue
+            u = decl_unit(c, docs=True)
+            units.append(u)
+            user_idents |= idents_of(c)
+    dump = os.path.join(cm.CM, "c18-dump")
+    with build.Lock():
+        build.snapshot()
+        art = cm.artifacts("macrodev")
+        expmon = build_expmon()
+        _shutil.rmtree(dump, ignore_errors=True)
+        os.makedirs(dump)
+        errors, st = cm.outcomes(units, art, "c18", header=NO_STD_HEADER, iterate=True, extra_env={"BITBYBIT_VERIF_DUMP_DIR": dump})
+        p = _subprocess.run([expmon, dump], stdout=_subprocess.PIPE, stderr=_subprocess.PIPE, timeout=1800)
+    if p.returncode != 0:
+        raise Inconclusive("expmon failed: " + p.stderr.decode(errors="replace")[-800:])
+    cov = dict(evaluations=len(units), distinct_nontrivial=0, rule="", samples=[], programs=len(units), clean_programs=0, diagnostics={}, expansions_scanned=0, expansions_with_unsafe=0,
+               path_heads={}, macros_invoked={}, fns_scanned=0, impls_scanned=0, accessor_body_shapes=0, rustc=st, exhaustive=False, families=fams)
+    by_uid = {u.uid: u for u in units}
+    clean = set()
+    for u in units:
+        errs = errors.get(u.uid, [])
+        if not errs:
+            cov["clean_programs"] += 1
+            clean.add(u.uid)
+            continue
+        part, code, msg = errs[0]
+        cov["diagnostics"][str(code)] = cov["diagnostics"].get(str(code), 0) + 1
+        cls = "missing-docs" if "missing documentation" in msg or code == "missing_docs" else ("unresolved-path" if code in ("E0433", "E0432", "E0412", "E0405", "E0425", "E0463") else "other-error")
+        c = u.meta["case"]
+        rec = dict(kind="regime-" + cls, what="generated code does not compile in a #![no_std] #![deny(missing_docs)] crate although every user item is documented", case=u.uid, family=c.get("family", c["kind"]),
+                   program="\n".join(NO_STD_HEADER[:4]) + "\n" + unit_text(u), observed="%s: %s" % (code, msg[:300]), expected="no diagnostic", replay_kind="compile", expect="accept", header="no_std")
+        res.violations.append((dict(category="regime-" + cls, shape=(msg[:60] if cls != "other-error" else str(code))), rec))
+    bodies = set()
+    shown = 0
+    allowed = ALLOWED_HEADS | user_idents
+    for line in p.stdout.decode(errors="replace").splitlines():
+        if not line.startswith("{"):
+            continue
+        r = _json.loads(line)
+        cov["expansions_scanned"] += 1
+        if "parse_error" in r:
+            raise Inconclusive("a dumped expansion does not parse: %s %s" % (r["file"], r["parse_error"]))
+        cov["fns_scanned"] += r["fns"]
+        cov["impls_scanned"] += r["impls"]
+        for m in r["macros"]:
+            cov["macros_invoked"][m] = cov["macros_invoked"].get(m, 0) + 1
+        bodies.update(r["bodies"])
+        if r["unsafe"]:
+            cov["expansions_with_unsafe"] += 1
+            rec = dict(kind="unsafe-in-expansion", what="the macro's output contains an unsafe construct", case=r["file"], observed=", ".join(sorted(set(r["unsafe"]))), expected="no unsafe code",
+                       program=open(os.path.join(dump, r["file"])).read()[:6000], replay_kind="dump-scan")
+            res.violations.append((dict(category="unsafe-in-expansion", shape=sorted(set(r["unsafe"]))[0]), rec))
+        for h, n in r["heads"].items():
+            cov["path_heads"][h if h in ALLOWED_HEADS else ("<user type>" if h in user_idents else h)] = cov["path_heads"].get(h if h in ALLOWED_HEADS else ("<user type>" if h in user_idents else h), 0) + n
+            if h not in allowed:
+                rec = dict(kind="foreign-path", what="the macro's output refers to something outside core and arbitrary_int", case=r["file"], observed="path starting with `%s`" % h,
+                           expected="paths rooted in core, arbitrary_int, Self, or identifiers the user wrote", program=open(os.path.join(dump, r["file"])).read()[:6000], replay_kind="dump-scan")
+                res.violations.append((dict(category="foreign-path", shape=h), rec))
+        if shown < 2 and r["fns"] > 3:
+            shown += 1
+            cov["samples"].append(dict(expansion_file=r["file"], fns=r["fns"], impls=r["impls"], path_heads=r["heads"], macros=r["macros"], unsafe=r["unsafe"]))
+    cov["accessor_body_shapes"] = len(bodies)
+    cov["distinct_nontrivial"] = len(bodies)
+    cov["rule"] = ("programs = documented, all-pub versions of the catalog's declarations compiled in one #![no_std] #![deny(missing_docs)] crate whose only dependencies are bitbybit and arbitrary_int, with the "
+                   "verif_hooks dump on; every dumped expansion is parsed with syn and walked for unsafe constructs and path heads; distinct_nontrivial = distinct normalised method bodies (literals and "
+                   "width-carrying identifiers replaced by placeholders) found in the scanned expansions, i.e. the distinct code shapes the macro emitted for this workload")
+    for u in units[:: max(1, len(units) // 3)][:3]:
+        cov["samples"].append(dict(case=u.uid, clean=u.uid in clean, program=unit_text(u)[:1200]))
+    cov["repo_fingerprint"] = build.repo_fingerprint()
+    props.write_evidence("C18", tier, seed, cov, time.time() - t0, len(res.violations), ASSUME_COMPILE + ["absence of unsafe is decided on the token stream the macro returned (hook), because rustc's unsafe_code lint does not fire inside proc-macro output",
+                                                                                                         "the host target stands in for the embedded target of the repository's CI: name resolution in a #![no_std] crate is target independent"])
+    if not res.violations and (cov["clean_programs"] == 0 or cov["expansions_scanned"] == 0):
+        raise Inconclusive("nothing observed (programs=%d, expansions=%d)" % (cov["clean_programs"], cov["expansions_scanned"]))
+    if not res.violations and cov["expansions_scanned"] < cov["clean_programs"]:
+        raise Inconclusive("fewer expansions dumped (%d) than programs compiled (%d): the hook did not fire" % (cov["expansions_scanned"], cov["clean_programs"]))
+    return res
+
+
+# ------------------------------------------------------------------------------------------------
+# C15: const context, identical results
+# ------------------------------------------------------------------------------------------------
+
+def check_c15(tier, seed):
+    t0 = time.time()
+    res = props.Result("C15")
+    profiles = props.tier_profiles(tier)
+    dropped = []
+    with build.Lock():
+        build.snapshot()
+        ws = build.Workspace(tier, seed)
+        ws.generate(["constf"])
+        for prof in profiles:
+            dropped += ws.build_resilient(["constf"], prof)
+    reports = [ws.run("constf", prof, "C15") for prof in profiles]
+    cov = dict(evaluations=0, distinct_nontrivial=0, rule="", samples=[], cases=0, const_items=0, operations={}, field_kinds={}, profiles={}, non_const_operations=[], exhaustive=False,
+               dropped_cases_that_did_not_compile=[d for d in dropped if d["code"] != "E0015"][:20])
+    seen = set()
+    for d in dropped:
+        if d["code"] in ("E0015", "E0658") or "const" in d["message"] and "cannot call non-const" in d["message"]:
+            key = (d["case"], d["message"][:120])
+            if key in seen:
+                continue
+            seen.add(key)
+            cov["non_const_operations"].append(d)
+            m = d["message"]
+            what = "method" if "method" in m else "function"
+            rec = dict(kind="not-const", what="a generated operation cannot be evaluated in a const context", case=d["case"], observed="%s: %s" % (d["code"], m[:300]), expected="usable in a const fn / const item",
+                       part=d["part"], replay_kind="const-harness", tier=tier, seed=seed)
+            import re
+            mm = re.search(r"`([^`]*)`", m)
+            shape = re.sub(r"\d+", "N", mm.group(1).split("::")[-1]) if mm else "?"
+            res.violations.append((dict(category="not-const", shape=shape), rec))
+    nontriv = {}
+    for r in reports:
+        cov["evaluations"] += r["evaluations"]
+        cov["profiles"][r["profile"]] = dict(comparisons=r["evaluations"], cases=r["cases"], const_items=r["const_items"], violations=r["violation_count"])
+        nontriv[r["profile"]] = r["nontrivial"]
+        if r is reports[0]:
+            cov["cases"] = r["cases"]
+            cov["const_items"] = r["const_items"]
+            cov["operations"] = r["ops"]
+            cov["field_kinds"] = r["field_kinds"]
+            cov["samples"] = r["samples"]
+        for v in r["violations"]:
+            res.violations.append((None, dict(v, profile=r["profile"], tier=tier, seed=seed, replay_kind="const-harness")))
+    cov["distinct_nontrivial"] = min(nontriv.values()) if nontriv else 0
+    cov["rule"] = ("per case one generated `const fn probe(raw, values)` calls ZERO, DEFAULT, new_with_raw_value, raw_value, every getter, every with_, builder(), every builder step, build() (and both bitenum conversions); "
+                   "`const` items force rustc's const evaluator to run it on boundary + seeded inputs, the same probe is run at run time on black_box'ed inputs, and both are compared with the reference register; "
+                   "distinct_nontrivial = cases whose const results took >= 2 distinct values and agreed three ways; a non-const operation shows up as E0015 inside the probe")
+    cov["repo_fingerprint"] = build.repo_fingerprint()
+    props.write_evidence("C15", tier, seed, cov, time.time() - t0, len(res.violations), props.ASSUME_RUNTIME[:2] + ["rustc's const evaluator is the compile-time evaluator users get"])
+    if not res.violations:
+        if cov["evaluations"] == 0 or cov["distinct_nontrivial"] < 2:
+            raise Inconclusive("nothing observed")
+        need = ["getter", "with_", "builder chain + build()", "DEFAULT", "bitenum new_with_raw_value", "bitenum raw_value"]
+        missing = [k for k in need if not cov["operations"].get(k)]
+        if missing:
+            raise Inconclusive("coverage floor missed: operations never evaluated in const context: %s" % missing)
+    return res
